@@ -155,6 +155,23 @@ def _assigned_value(assign, name):
     return None
 
 
+def all_values(fn, name_node):
+    """Value expressions of ALL definitions reaching a use of a local name, if every one of them is a simple
+    assignment `name = <expr>`; else None."""
+    ds = fn.rd.defs_of_use(name_node)
+    if not ds:
+        return None
+    out = []
+    for d in ds:
+        if d == PARAM or not isinstance(d, ast.Assign):
+            return None
+        av = _assigned_value(d, name_node.id)
+        if av is None:
+            return None
+        out.append(av[1])
+    return out
+
+
 def expand(fn, expr, depth=6, stop_names=()):
     """Copy of ``expr`` in which local aliases with a unique reaching definition are replaced by
     their defining expression (recursively).  Used to make structural rules insensitive to
